@@ -36,7 +36,7 @@ func (c C14Case) hash() uint64 {
 	return hashBytes([]byte(c.Obj.Kind + "\x00" + c.Obj.Expr + "\x00" + c.Obj.Opts.Hook + c.Obj.Opts.Unknown + c.Obj.Opts.Tag + fmt.Sprint(c.Obj.Opts.Max) + "\x00" + c.Datum.String() + c.Op + pre))
 }
 
-var mixedFamilyNames = []string{"eq", "path", "in", "re", "poison", "nested", "tslice", "tptr", "filter", "tfilter", "eq", "path", "ieq", "neq", "fold"}
+var mixedFamilyNames = []string{"eq", "path", "in", "re", "poison", "nested", "tslice", "tptr", "filter", "tfilter", "eq", "path", "ieq", "neq", "fold", "qfilter"}
 
 func genClasses(r *plan.Rand) string {
 	n := r.Range(2, 8)
@@ -74,7 +74,7 @@ func GenC14Case(seed uint64, idx int) C14Case {
 			c.Prelude = &DatumSpec{Gen: "mixed:" + fam + ":" + string(b) + ":alt", Seed: 1}
 		}
 		body := MixedFamilies[fam]
-		if fam == "filter" || fam == "tfilter" {
+		if fam == "filter" || fam == "tfilter" || fam == "qfilter" {
 			c.Op = "exec"
 			c.Obj = ObjSpec{Kind: "filter", Expr: body}
 			if r.Chance(0.3) {
@@ -170,6 +170,7 @@ type caseRunner struct {
 	c     C14Case
 	obj   *Object
 	datum interface{}
+	hist  [][]uint64 // tapes executed so far on the shared object, in order
 }
 
 func newCaseRunner(c C14Case) *caseRunner {
@@ -182,7 +183,18 @@ func (cr *caseRunner) run(tape []uint64) orderRun {
 		obj = NewObject(cr.c.Obj)
 		runOrder(obj, Build(*cr.c.Prelude), cr.c.Op, nil)
 	}
+	if cr.c.Prelude == nil {
+		cr.hist = append(cr.hist, append([]uint64{}, tape...))
+	}
 	return runOrder(obj, cr.datum, cr.c.Op, tape)
+}
+
+// history returns the tapes that ran on the shared object before the last one.
+func (cr *caseRunner) history() [][]uint64 {
+	if len(cr.hist) < 2 {
+		return nil
+	}
+	return append([][]uint64{}, cr.hist[1:len(cr.hist)-1]...)
 }
 
 // C14Result is the per-case record.
@@ -203,9 +215,12 @@ type C14Result struct {
 type C14Diff struct {
 	TapeA []uint64 `json:"tape_a"`
 	TapeB []uint64 `json:"tape_b"`
-	OutA  Outcome  `json:"outcome_a"`
-	OutB  Outcome  `json:"outcome_b"`
-	Probe string   `json:"probe,omitempty"`
+	// History: the order tapes executed on the same object between tape_a (the
+	// first call) and tape_b (the differing call); the replay repeats them
+	History [][]uint64 `json:"history,omitempty"`
+	OutA    Outcome    `json:"outcome_a"`
+	OutB    Outcome    `json:"outcome_b"`
+	Probe   string     `json:"probe,omitempty"`
 }
 
 // findMapPath locates the map with identity ptr inside root and returns the
@@ -354,7 +369,7 @@ func RunC14Case(c C14Case, seed uint64, tier string) C14Result {
 	verifsim.BeginMain()
 	verifsim.SetOrderSeam(true)
 	cr := newCaseRunner(c)
-	obj, datum := cr.obj, cr.datum
+	datum := cr.datum
 	base := cr.run(nil)
 	res.Base = base.Out.String()
 	res.Orders = 1
@@ -365,7 +380,9 @@ func RunC14Case(c C14Case, seed uint64, tier string) C14Result {
 	if base.N == 0 || base.Out.Skip {
 		return res
 	}
-	res.Classes = measureClasses(c, obj, datum, base.Decisions[0])
+	// (measured on an object of its own: the explored object's history must
+	// consist of the explored orders only, or the replay could not repeat it)
+	res.Classes = measureClasses(c, NewObject(c.Obj), datum, base.Decisions[0])
 	res.Nontrivial = classesNontrivial(res.Classes)
 
 	r := plan.New(plan.Mix(seed, c.hash()))
@@ -376,7 +393,7 @@ func RunC14Case(c C14Case, seed uint64, tier string) C14Result {
 			res.PathSens = true
 		}
 		if !sameC14(run.Out, base.Out) {
-			res.Violation = &C14Diff{TapeA: []uint64{}, TapeB: tape, OutA: base.Out, OutB: run.Out}
+			res.Violation = &C14Diff{TapeA: []uint64{}, TapeB: tape, OutA: base.Out, OutB: run.Out, History: cr.history()}
 			return false
 		}
 		return true
@@ -443,7 +460,7 @@ func RunC14Case(c C14Case, seed uint64, tier string) C14Result {
 				res.PathSens = true
 			}
 			if !sameC14(run.Out, base.Out) {
-				res.Violation = &C14Diff{TapeA: []uint64{}, TapeB: append([]uint64(nil), tape...), OutA: base.Out, OutB: run.Out}
+				res.Violation = &C14Diff{TapeA: []uint64{}, TapeB: append([]uint64(nil), tape...), OutA: base.Out, OutB: run.Out, History: cr.history()}
 				return res
 			}
 			if count > 6000 || run.N > len(run.Decisions) {
@@ -528,6 +545,24 @@ type c14Summary struct {
 	ProbeCases []C14Case      `json:"probe_cases"`
 	Violations int            `json:"violations"`
 	ClassMixes map[string]int `json:"class_mix_histogram"`
+	Sentinels  []c14Sentinel  `json:"sentinels"`
+}
+
+// c14Sentinel: the same seeded cases are run by every worker process; their
+// outcomes must agree across processes (a function of expression, options and
+// datum does not depend on the process either).
+type c14Sentinel struct {
+	Case  C14Case `json:"case"`
+	Hash  uint64  `json:"hash"`
+	Class string  `json:"class"`
+}
+
+func sentinelClass(c C14Case) string {
+	verifsim.Reset()
+	verifsim.BeginMain()
+	verifsim.SetOrderSeam(true)
+	cr := newCaseRunner(c)
+	return outClass(cr.run(nil).Out)
 }
 
 func mixKey(cl string) string {
@@ -586,6 +621,10 @@ func workerC14(cfg WorkerCfg) int {
 				Replay: mustJSON(map[string]interface{}{"engine": "ordersim", "property": "C14", "build": "plain", "seed": cfg.Seed, "case": min, "diff": diff, "datum_canon": clip(Canon(Build(min.Datum), false), 2000)})})
 		}
 	}
+	for i := 0; i < 32; i++ {
+		c := GenC14Case(cfg.Seed, 5000000+i)
+		sum.Sentinels = append(sum.Sentinels, c14Sentinel{Case: c, Hash: c.hash(), Class: sentinelClass(c)})
+	}
 	cfg.Emit(sum)
 	return 0
 }
@@ -597,15 +636,21 @@ func replayC14(cfg WorkerCfg) int {
 		return 2
 	}
 	var doc struct {
-		Build string   `json:"build"`
-		Seed  uint64   `json:"seed"`
-		Case  C14Case  `json:"case"`
-		Diff  *C14Diff `json:"diff"`
-		R     int      `json:"r"`
+		Build     string   `json:"build"`
+		Seed      uint64   `json:"seed"`
+		Case      C14Case  `json:"case"`
+		Diff      *C14Diff `json:"diff"`
+		R         int      `json:"r"`
+		CrossProc bool     `json:"cross_process"`
 	}
 	if err := json.Unmarshal(b, &doc); err != nil {
 		fmt.Fprintln(os.Stderr, err)
 		return 2
+	}
+	if doc.CrossProc {
+		// the driver runs this in several fresh processes and compares the classes
+		cfg.Emit(map[string]interface{}{"type": "replay", "reproduced": false, "class": sentinelClass(doc.Case)})
+		return 0
 	}
 	if doc.Build == "pure" {
 		d := probeCase(doc.Case, doc.R)
@@ -617,6 +662,9 @@ func replayC14(cfg WorkerCfg) int {
 	verifsim.SetOrderSeam(true)
 	cr := newCaseRunner(doc.Case)
 	a := cr.run(doc.Diff.TapeA)
+	for _, h := range doc.Diff.History {
+		cr.run(h)
+	}
 	bb := cr.run(doc.Diff.TapeB)
 	cfg.Emit(map[string]interface{}{"type": "replay", "reproduced": !sameC14(a.Out, bb.Out), "outcome_a": a.Out, "outcome_b": bb.Out,
 		"decisions_a": a.Decisions, "decisions_b": bb.Decisions})
